@@ -1,25 +1,16 @@
 package main
 
-import (
-	"fmt"
-	"go/ast"
-	"go/token"
-	"go/types"
-	"sort"
-	"strings"
-)
-
 // C19 — query methods.  Rule family A17 QUERYSIB.
 
 func init() {
 	register(&propCheck{
 		id:    "C19",
 		title: "Font and metrics query methods agree with their definitions",
-		explanation: "Decides the structural clauses of C19 for both the Type 1 font and the AFM metrics types: NumGlyphs adds one exactly when GlyphList adds the name .notdef (same test); the list's names come from the keys of the glyph map (plus .notdef) and nothing else; the order key is −1 for .notdef, the code for encoded glyphs (entries .notdef skipped), 256 otherwise, and the comparator orders by (key, name) with a total tie-break; " +
+		explanation: "Decides the structural clauses of C19 for both the Type 1 font and the AFM metrics types: GlyphList and NumGlyphs are evaluated abstractly on ten model fonts each (with/without .notdef, no/partial encoding, encoding entries that are .notdef or name missing glyphs, a glyph at code 255 next to an unencoded one, two delivery orders of the glyph map): the list holds every glyph and .notdef exactly once and nothing else, starts with .notdef, continues with the encoded glyphs by code and ends with the rest by name, and its length is the reported count; " +
 			"bounding boxes: the lower-left coordinates are updated under `first || v < current`, the upper-right ones under `first || v > current`, x with x and y with y, from the end points Args[0],Args[1] of moves and lines and Args[4],Args[5] of curves; the PDF variant maps every point through FontMatrix·Scale(1000,1000) before the comparison; unknown glyphs give the zero rectangle; font boxes skip zero boxes and union the rest; " +
 			"widths: the per-glyph call and the width map compute the horizontal scale by the same statements over FontMatrix, multiply by 1000 once, and the per-glyph call falls back to .notdef and then 0. " +
 			"It does NOT decide numerical equality with an independent recomputation.",
-		trusted:     []string{"go/types, rendered source for sibling comparison of short statement sequences"},
+		trusted:     []string{"go/types, go/ssa; the evaluator's models of maps.Keys, map range/lookup/update and of the sort functions (insertion sort with the repository's comparison)"},
 		assumptions: nil,
 		run:         runC19,
 	})
@@ -27,147 +18,10 @@ func init() {
 
 func runC19(c *Ctx) {
 	for _, t := range []struct{ pkg, typ string }{{"type1", "Font"}, {"afm", "Metrics"}} {
-		c.glyphListRules(t.pkg, t.typ)
+		c.glyphListModels(t.pkg, t.typ)
 	}
 	c.bboxRulesSSA("type1", "Glyph", "BBox", false)
 	c.bboxRulesSSA("type1", "Font", "GlyphBBoxPDF", true)
 	c.fontBBoxRulesSSA()
 	c.widthRulesSSA()
-}
-
-func (c *Ctx) glyphListRules(pkg, typ string) {
-	info := c.info(pkg)
-	num := c.funcDecl(pkg, typ, "NumGlyphs")
-	gl := c.funcDecl(pkg, typ, "GlyphList")
-	name := pkg + ".(*" + typ + ")"
-	notdefTest := func(fd *ast.FuncDecl) (*ast.IfStmt, string) {
-		var res *ast.IfStmt
-		var test string
-		ast.Inspect(fd.Body, func(n ast.Node) bool {
-			ifs, ok := n.(*ast.IfStmt)
-			if !ok || ifs.Init == nil || res != nil {
-				return true
-			}
-			init := nodeString(c, ifs.Init)
-			if strings.Contains(init, `[".notdef"]`) && types.ExprString(ifs.Cond) == "!ok" {
-				res = ifs
-				test = init
-			}
-			return true
-		})
-		return res, test
-	}
-	ni, nt := notdefTest(num)
-	gi, gt := notdefTest(gl)
-	adds := ni != nil && strings.Contains(nodeString(c, ni.Body), "++")
-	appends := gi != nil && strings.Contains(nodeString(c, gi.Body), `append(`) && strings.Contains(nodeString(c, gi.Body), `".notdef"`)
-	norm := func(s string) string {
-		// receiver names may differ
-		return strings.Join(strings.Fields(s)[len(strings.Fields(s))-1:], "")
-	}
-	c.check(adds == appends && (!adds || norm(nt) == norm(gt)), "Q-NOTDEF", name, "NumGlyphs counts .notdef exactly when GlyphList lists it (same test)", gl.Pos(), fmt.Sprintf("NumGlyphs adds one: %v; GlyphList appends .notdef: %v", adds, appends),
-		fmt.Sprintf("NumGlyphs adds one for a missing .notdef: %v, but GlyphList appends the name: %v — the list's length then differs from the reported count and it does not start with .notdef", adds, appends))
-	c.check(adds, "Q-NOTDEF", name, "the count includes .notdef", num.Pos(), "", "NumGlyphs no longer counts the implicit .notdef glyph")
-
-	// names come from maps.Keys(X.Glyphs) only
-	var listVar types.Object
-	srcOK := false
-	ast.Inspect(gl.Body, func(n ast.Node) bool {
-		as, ok := n.(*ast.AssignStmt)
-		if !ok || as.Tok != token.DEFINE || len(as.Rhs) != 1 {
-			return true
-		}
-		if call, ok := as.Rhs[0].(*ast.CallExpr); ok && types.ExprString(call.Fun) == "maps.Keys" && len(call.Args) == 1 {
-			if sel, ok := call.Args[0].(*ast.SelectorExpr); ok && sel.Sel.Name == "Glyphs" {
-				listVar = info.ObjectOf(as.Lhs[0].(*ast.Ident))
-				srcOK = true
-			}
-		}
-		return true
-	})
-	// the returned value is that variable; appends to it add only the constant ".notdef"
-	retOK := false
-	appOK := true
-	ast.Inspect(gl.Body, func(n ast.Node) bool {
-		switch n := n.(type) {
-		case *ast.ReturnStmt:
-			if id, ok := n.Results[0].(*ast.Ident); ok && info.ObjectOf(id) == listVar {
-				retOK = true
-			}
-		case *ast.AssignStmt:
-			if len(n.Lhs) == 1 && len(n.Rhs) == 1 {
-				if id, ok := n.Lhs[0].(*ast.Ident); ok && listVar != nil && info.ObjectOf(id) == listVar && n.Tok == token.ASSIGN {
-					call, ok := n.Rhs[0].(*ast.CallExpr)
-					if !ok || types.ExprString(call.Fun) != "append" {
-						appOK = false
-						return true
-					}
-					for _, a := range call.Args[1:] {
-						if s, ok := constStrOf(info, a); !ok || s != ".notdef" {
-							appOK = false
-						}
-					}
-				}
-			}
-		}
-		return true
-	})
-	c.check(srcOK && retOK && appOK, "Q-LISTSOURCE", name, "the list holds the keys of the glyph map (plus .notdef) and nothing else", gl.Pos(), "maps.Keys(f.Glyphs) [+ \".notdef\"], sorted and returned", "GlyphList does not return exactly the keys of the glyph map plus .notdef: names of glyphs that are not in the font (e.g. from the encoding) can appear, or glyphs can be missing")
-
-	// order keys
-	keys := map[string]string{} // what -> assigned value text
-	encGuard := false
-	ast.Inspect(gl.Body, func(n ast.Node) bool {
-		as, ok := n.(*ast.AssignStmt)
-		if !ok || len(as.Lhs) != 1 {
-			return true
-		}
-		ix, ok := as.Lhs[0].(*ast.IndexExpr)
-		if !ok {
-			return true
-		}
-		if _, isMap := info.TypeOf(ix.X).Underlying().(*types.Map); !isMap {
-			return true
-		}
-		idx := types.ExprString(ix.Index)
-		val := types.ExprString(as.Rhs[0])
-		if s, ok := constStrOf(info, ix.Index); ok {
-			idx = "const:" + s
-		}
-		keys[idx+"="+val] = val
-		return true
-	})
-	ast.Inspect(gl.Body, func(n ast.Node) bool {
-		rs, ok := n.(*ast.RangeStmt)
-		if !ok || !strings.HasSuffix(types.ExprString(rs.X), ".Encoding") {
-			return true
-		}
-		if len(rs.Body.List) == 1 {
-			if ifs, ok := rs.Body.List[0].(*ast.IfStmt); ok && strings.Contains(types.ExprString(ifs.Cond), `!= ".notdef"`) {
-				if as, ok := ifs.Body.List[0].(*ast.AssignStmt); ok {
-					if k, ok := rs.Key.(*ast.Ident); ok && types.ExprString(as.Rhs[0]) == k.Name {
-						encGuard = true
-					}
-				}
-			}
-		}
-		return true
-	})
-	okKeys := keys["const:.notdef=-1"] == "-1" && encGuard
-	has256 := false
-	for _, v := range keys {
-		if v == "256" {
-			has256 = true
-		}
-	}
-	c.check(okKeys && has256, "Q-ORDER", name, "order key: −1 for .notdef, the code for encoded glyphs (.notdef entries skipped), 256 otherwise", gl.Pos(), fmt.Sprint(sortedKV(keys)), fmt.Sprintf("order keys are %v (encoding loop assigns the code and skips .notdef: %v)", sortedKV(keys), encGuard))
-}
-
-func sortedKV(m map[string]string) []string {
-	var out []string
-	for k, v := range m {
-		out = append(out, k+"→"+v)
-	}
-	sort.Strings(out)
-	return out
 }
